@@ -11,6 +11,7 @@ from fractions import Fraction
 
 import astlib as A
 import c15
+import c17e
 import fe
 from report import Finding
 
@@ -222,10 +223,11 @@ def check(rep, tier, replay=None):
         "signed zeros, with atan2's IEEE quadrant table as transfer function -- a finite set of orderings, no value is sampled; "
         "normalised/canonical conversions shared with C15 (sign shape of q_w in the IR of the conversion witnesses, normalising constructors).")
     rep.trusted.update(["clang++-16 front end", "IEEE-754 / C11 Annex F table of atan2 at signed zeros"])
-    rep.assumptions.append("SE_K_3<1> == SE3, SE_K_3<2> in Galilei, lift/project homomorphisms, Euler/isometry round trips, C1 factorisation and rot_i(t)=exp(t e_i) are value-level equalities and NOT decided")
+    rep.assumptions.append("SE_K_3<1> == SE3, SE_K_3<2> in Galilei (composition, inverse), rot_i(t) = exp(t e_i) and the lift/project relations are decided by rules E.P / E.R (the transcendental ones along rays through the identity); Euler / isometry round trips and the C1 factorisation are NOT decided")
     d = fe.ast_dumps(["smooth::SO2", "SO3", "Impl"])
     rep.unit("umbrella TU filtered SO2 / SO3 / Impl")
     check_g1(rep, A.index(d["smooth::SO2"]))
     c15.check_r3(rep, d["smooth::SO2"] + d["SO3"])
     # canonical hemisphere of every conversion that produces an SO3 part
     c15.check_r1(rep, tier, only_conversions=True)
+    c17e.run(rep, tier)
